@@ -1,7 +1,7 @@
 (* Props/Properties_C01.v -- C01: bottom-up incidence queries are the exact inverse of the top-down definitions.
    (The derived queries - every circulator list, valence, is_boundary, boundary iterators - are in Properties_C01_queries.v.) *)
 From Coq Require Import ZArith List Arith Bool.
-From OVM Require Import Base.ListX Kernel.State Kernel.Ops Kernel.Recompute Kernel.Closure Kernel.DeferredDelete Kernel.Reenable Kernel.InvB.
+From OVM Require Import Base.ListX Kernel.State Kernel.Ops Kernel.Recompute Kernel.Closure Kernel.DeferredDelete Kernel.Reenable Kernel.InvB Kernel.ExactInv Kernel.ExactDelete Kernel.ExactRun.
 Import ListNotations.
 
 (* The invariant (membership form, one clause per incidence kind; Kernel/Closure.v):
@@ -62,6 +62,24 @@ Proof.
   intros s. exact (conj (reenabled_vertex_incidences_exact s) (conj (reenabled_face_incidences_exact s) (reenabled_edge_incidences_exact_partial s))).
 Qed.
 Print Assumptions C01_invariant_restored_by_reenabling.
+
+(* 5. the invariant (with the range facts it needs: bu_inv = vbu_ok /\ ebu_ok /\ fbu_ok /\ refs_ok /\ lens_ok) holds after EVERY
+      history of growth operations - add_vertex, add_n_vertices, add_edge (duplicates allowed or not), add_face (checked or not),
+      add_face from vertices, toggling vertex incidences, rejected calls included - by induction over the history *)
+Theorem C01_invariant_holds_along_all_growth_histories : forall ops : list op,
+  forallb grow_op ops = true ->
+  let s := run ops in vbu_ok s /\ ebu_ok s /\ fbu_ok s /\ refs_ok s /\ lens_ok s.
+Proof. exact bu_inv_growth_histories. Qed.
+Print Assumptions C01_invariant_holds_along_all_growth_histories.
+
+(* 6. ... and is preserved by deferred deletion of a vertex slot or a live edge slot (the cores that involve no re-ordering) *)
+Theorem C01_invariant_preserved_by_deferred_vertex_and_edge_cores : forall h s, deferred s = true -> bu_inv s ->
+  bu_inv (delete_vertex_core h s) /\ (h < ne s -> e_deleted s h = false -> bu_inv (delete_edge_core h s)).
+Proof.
+  intros h s D H. split; [exact (bu_inv_delete_vertex_core_deferred h s D H)|].
+  intros Hh Hl. exact (bu_inv_delete_edge_core_deferred h s D H Hh Hl).
+Qed.
+Print Assumptions C01_invariant_preserved_by_deferred_vertex_and_edge_cores.
 
 (* NOT YET A THEOREM: C01_bu_exact : forall valid histories ops, vbu_ok (run ops) /\ ebu_ok (run ops) /\ fbu_ok (run ops)
    (preservation of the invariant by every incremental update path).  The obstacle is reorder_incident_halffaces: it rewrites a
